@@ -126,6 +126,11 @@ func checkImplementation(
 	// package has the same name but is a different method (Go: "T does not implement I (unexported method m)")
 	typeMethods := make(map[string]TypeMethod)
 	for _, method := range typeModel.Methods {
+		// A pointer to an interface type has an empty method set
+		if requirePointer && typeModel.IsInterface {
+			break
+		}
+
 		// Filter methods based on pointer requirement
 		if requirePointer {
 			// For &Interface, we need pointer receiver methods
